@@ -72,6 +72,9 @@ def binds(p, fid):
                 out.add(d['name'])
             if d['kind'] == 'def':
                 out.add(d['name'])
+            for h in d['handlers']:
+                if h.get('name'):
+                    out.add(h['name'])
     return out
 
 
@@ -99,10 +102,17 @@ def finish_program(p):
     for f in p['fns']:
         names.add(f['name'])
         names |= set(f['params']) | set(f['nonlocals'])
+    hnames = set()
     for d in p['nodes']:
         names |= set(d['tgt']) | set(d['args'])
         if d['name']:
             names.add(d['name'])
+        for h in d['handlers']:
+            h.setdefault('name', '')
+            if h['name']:
+                names.add(h['name'])
+                hnames.add(h['name'])
+    p['hnames'] = sorted(hnames)
     for x in p['exprs']:
         names |= set(x['reads'])
         if x['name']:
@@ -146,7 +156,8 @@ class RandomGen:
     """Seeded random programs of the effectful profile (class C01/C05 depending on flags)."""
 
     def __init__(self, rnd, maxdepth=3, loop_else=False, maxfns=3, ifexp=True, exprstmt=True, dele=True,
-                 try_=True, with_=True, calls=True, names=None):
+                 try_=True, with_=True, calls=True, names=None, hnames=True):
+        self.hnames = hnames
         self.r = rnd
         self.b = Builder()
         self.maxdepth = maxdepth
@@ -229,7 +240,8 @@ class RandomGen:
             N[i - 1]['body'] = self.block(fn, scope, depth + 1, inloop, infinally)
             hs = []
             for c in self.r.sample([1, 2], self.r.randint(0, 2)):
-                hs.append(dict(cls=c, body=self.block(fn, scope, depth + 1, inloop, infinally)))
+                hs.append(dict(cls=c, name=self.r.choice(['', '', 'ex', self.r.choice(self.names)]) if self.hnames else '',
+                               body=self.block(fn, scope + ['ex'] if self.hnames else scope, depth + 1, inloop, infinally)))
             N[i - 1]['handlers'] = hs
             if not hs or self.r.random() < 0.5:
                 N[i - 1]['final'] = self.block(fn, scope, depth + 1, False, True)
@@ -343,7 +355,7 @@ def r_stmt(p, n, ind, out):
         out.append((0, s + 'try:'))
         r_block(p, d['body'], ind + 1, out)
         for h in d['handlers']:
-            out.append((0, s + 'except E%d:' % h['cls']))
+            out.append((0, s + 'except E%d%s:' % (h['cls'], (' as ' + h['name']) if h.get('name') else '')))
             r_block(p, h['body'], ind + 1, out)
         if d['final']:
             out.append((0, s + 'finally:'))
@@ -421,6 +433,10 @@ def enc(v):
         return ['i', v, 0]
     if isinstance(v, IList):
         return ['l', v.serial, len(v)]
+    if isinstance(v, E1):
+        return ['x', 1, 0]
+    if isinstance(v, E2):
+        return ['x', 2, 0]
     if callable(v):
         return ['f', 0, 0]
     return ['?', repr(type(v)), 0]
